@@ -94,6 +94,7 @@ class C03(Spec):
         return (tasks_keywords.keyword_tasks(root, _tmo(tier)) +
                 tasks_core.core_tasks(root, 2 * _tmo(tier), which=("iter_errors", "is_valid", "descend", "validate", "is_type")) +
                 tasks_resolver.resolver_tasks(root, 2 * _tmo(tier), which=("resolve_fragment", "resolve_from_url", "resolve", "ref_keyword")) +
+                __import__("contracts.tasks_utils", fromlist=["x"]).util_tasks(root, _tmo(tier)) +      # equal / uniq behind enum, const, uniqueItems
                 [t for t in __import__("contracts.tasks_entry", fromlist=["x"]).entry_tasks(root, _tmo(tier)) if t.which in ("relevance", "best_match", "module_validate")])
 
     def select(self, ob, r):
@@ -546,11 +547,12 @@ class C11(Spec):
             return acc
         used = {d: keys(repo.schemas[d], set()) for d in drafts.DRAFTS}
         kw = [t for t in tasks_keywords.keyword_tasks(root, _tmo(tier)) if t.k in used[t.d]]
-        return own + kw + tasks_utils.util_tasks(root, _tmo(tier)) + \
+        from contracts import tasks_derive
+        return own + kw + tasks_utils.util_tasks(root, _tmo(tier)) + tasks_derive.uridict_tasks(root, _tmo(tier)) + \
             tasks_core.core_tasks(root, 2 * _tmo(tier), which=("iter_errors", "descend", "is_type"))
 
     def select(self, ob, r):
-        if r["task"].startswith(("entry:", "validators:check_schema", "exceptions:")) or "check_schema" in r["task"] or "create_from" in r["task"]:
+        if r["task"].startswith(("entry:", "uridict:")):
             return True
         return ob["kind"] in ("F", "P", "L") and "/F/structure" not in ob["name"]
 
@@ -694,11 +696,12 @@ class C20(Spec):
     explanation = "validator_for is proved, for an arbitrary registry state, to return the caller's default for a boolean / non-mapping / $schema-less schema without warning, the registered class for a registered (normalised) id without warning, and the latest draft with exactly one DeprecationWarning otherwise; validates(version)(cls) to write validators[version] and meta_schemas[cls's own metaschema id] and nothing else and to return cls; _LATEST_VERSION is the draft-7 class and create(version=...) registers through validates (AST)."
 
     def tasks(self, root, tier):
-        from contracts import tasks_registry, tasks_entry
-        return tasks_registry.registry_tasks(root, _tmo(tier)) + [t for t in tasks_entry.entry_tasks(root, _tmo(tier)) if t.which == "module_validate"]
+        from contracts import tasks_registry, tasks_entry, tasks_derive
+        return tasks_registry.registry_tasks(root, _tmo(tier)) + [t for t in tasks_entry.entry_tasks(root, _tmo(tier)) if t.which == "module_validate"] + \
+            tasks_derive.uridict_tasks(root, _tmo(tier))      # the registry is a URIDict: "with or without an empty fragment" is its normalisation
 
     def select(self, ob, r):
-        return r["task"].startswith("registry:") or "cls-from-$schema" in ob["name"] or ob["kind"] == "P"
+        return r["task"].startswith(("registry:", "uridict:")) or "cls-from-$schema" in ob["name"] or ob["kind"] == "P"
 
     def failure_kinds(self):
         return ("R",)
@@ -887,11 +890,12 @@ class C02(Spec):
 
     def tasks(self, root, tier):
         from contracts import tasks_resolver
-        return (tasks_resolver.resolver_tasks(root, 2 * _tmo(tier), which=RESOLVER_ALL) +
+        from contracts import tasks_derive
+        return (tasks_resolver.resolver_tasks(root, 2 * _tmo(tier), which=RESOLVER_ALL) + tasks_derive.uridict_tasks(root, _tmo(tier)) +
                 tasks_core.core_tasks(root, 2 * _tmo(tier), which=("iter_errors",)))
 
     def select(self, ob, r):
-        if r["task"].startswith("validators:RefResolver."):
+        if r["task"].startswith(("validators:RefResolver.", "uridict:")):
             return True
         return "/F/structure" in ob["name"] or "/F/verdict" in ob["name"] or ob["kind"] == "X"
 
@@ -922,7 +926,8 @@ class C15(Spec):
 
     def tasks(self, root, tier):
         from contracts import tasks_resolver
-        return tasks_resolver.resolver_tasks(root, 2 * _tmo(tier), which=("resolve_remote", "resolve_from_url", "resolve"))
+        from contracts import tasks_derive
+        return tasks_resolver.resolver_tasks(root, 2 * _tmo(tier), which=("resolve_remote", "resolve_from_url", "resolve")) + tasks_derive.uridict_tasks(root, _tmo(tier))
 
     def select(self, ob, r):
         return True
